@@ -107,6 +107,18 @@ def run(ctx):
                         L += [G.NOFIRE, G.op(0, "sput" if look == "sget" else "put", ("filler%d" % i, hs[0], hs[1]), "F", 1)]
                     L += [G.NOFIRE, G.op(0, look, key), G.NOFIRE, G.op(0, "stouch" if look == "sget" else "touch", key), "snap"]
                     pcases.append(({"shards": nsh, "hashes": hs, "fillers": fillers, "lookup": look}, L))
+    # "fewer than 2 shards are treated as 2" holds on the read side as well: a read-only level (and
+    # the read side of a stack) declared with 0 or 1 shards finds what a writer with the same count stored
+    for nsh in (0, 1, 2):
+        for hs in ((7, 9), (1 << 63, 3), (12345678901234567, 98765432109876543)):
+            key = ("kk", hs[0], hs[1])
+            rd = (("sharded", nsh),)
+            for which in (0, 1):
+                for w in (None, ("plain", 300)):
+                    for look in ("get", "touch", "roget"):
+                        L = G.header(w, rd, "none") + [G.plant(G.key_path(("sharded", nsh), "r0", key, which), "STORED", mtime=G.T0 + 9, atime=G.T0),
+                                                       G.NOFIRE, G.op(0, look, key), "snap"]
+                        pcases.append(({"shards": nsh, "hashes": hs, "fillers": 0, "lookup": look, "read_side": True, "which": which}, L))
     pres = S.run_many(pcases)
     pagree = 0
     for desc, lines, impl, model, diffs in pres:
@@ -119,12 +131,18 @@ def run(ctx):
         nontriv += 1
         stn = desc["fillers"] + 1
         r = impl.results.get(stn)
+        if desc.get("read_side"):
+            if r and not (r[1].startswith("OkSome content=STORED") or r[1].startswith("OkBool 1")):
+                violations.append({"what": "a read-only sharded level declared with %d shards does not find the entry stored in its %s shard directory (two-shard layout): %s" % (desc["shards"], "secondary" if desc["which"] else "primary", r[1][:40]),
+                                   "classification": {"kind": "read-side-small-count", "api": desc["lookup"], "shards": desc["shards"]},
+                                   "replay": {"kind": "input", "scenario": lines, "case": str(desc)}})
+            continue
         if r and not r[1].startswith("OkSome content=PRIMARY"):
             violations.append({"what": "after %d writes of other keys with the same hashes through the same handle, a lookup reads %s: the primary candidate was not probed first" % (desc["fillers"], r[1][:40]),
                                "classification": {"kind": "probe-order", "api": desc["lookup"]},
                                "replay": {"kind": "input", "scenario": lines, "case": str(desc)}})
     cov = {"evaluations": n + len(pres), "distinct_nontrivial": nontriv, "probe_order_cases": len(pres),
-           "rule": "boundary and random 64-bit hash pairs (0, 1, 2^63, 2^64-1, pre-images of shard boundaries +-1, equal primary/secondary images incl. the last shard, equal hashes) x shard counts 0..70, 128, 255..257, 1024, 4096, 65537; observed: temp dir offered, directory a fresh put lands in, lookup/touch/overwrite of an entry planted in the secondary candidate, invisibility of a third shard; plus probe order (copies in both candidate shards, lookups and touches through a handle whose load estimates were raised by earlier writes). Non-trivial = colliding images, an image within 1 of a shard boundary, or n < 2; distinct by (hash, sec, n).",
+           "rule": "boundary and random 64-bit hash pairs (0, 1, 2^63, 2^64-1, pre-images of shard boundaries +-1, equal primary/secondary images incl. the last shard, equal hashes) x shard counts 0..70, 128, 255..257, 1024, 4096, 65537; observed: temp dir offered, directory a fresh put lands in, lookup/touch/overwrite of an entry planted in the secondary candidate, invisibility of a third shard; plus read-only levels declared with 0 / 1 / 2 shards finding entries of the two-shard layout; plus probe order (copies in both candidate shards, lookups and touches through a handle whose load estimates were raised by earlier writes). Non-trivial = colliding images, an image within 1 of a shard boundary, or n < 2; distinct by (hash, sec, n).",
            "samples": samples or [next(iter(p2.stdout.split("\n")), "")], "traces_validated_against_impl": n + pagree}
     if not ctx.quick():
         rc, o = C.coqchk(PROPS)
